@@ -28,6 +28,9 @@ def _new_handler(em, n):
         cx = inner[-1]
         args = [em.expr(a) for a in cx.get("inner", [])]
         return "xc_new_DefaultSpan(%s)" % ", ".join(args)
+    if "SpanContext" in t:
+        cx = inner[-1]
+        return "xc_new_SpanContext(%s)" % em.expr(cx)
     raise ExtractionError("new-expression of %s not supported" % t)
 
 
@@ -494,3 +497,80 @@ def _ctx_new(em, n):
         cx = [c for c in n.get("inner", []) if c.get("kind") == "CXXConstructExpr"][-1]
         return "xc_new_Token(%s)" % ", ".join(em.expr(a) for a in cx.get("inner", []))
     raise ExtractionError("new-expression of %s not supported" % t)
+
+
+# ---------------------------------------------------------------------------------------------
+# Tracer::StartSpan boundary: everything the function only calls through (config, current span, options.parent variant,
+# id generator, sampler, span construction) is a recorded ghost call
+_SRC_CACHE = {}
+
+
+def _node_source(em, node):
+    """source text of an expression node (used only to read an explicit template argument the JSON AST does not carry)"""
+    f = getattr(em.cfg, "src_file", None)
+    rng = node.get("range", {})
+    b, e = rng.get("begin", {}), rng.get("end", {})
+    b = b.get("expansionLoc", b)
+    e = e.get("expansionLoc", e)
+    if f is None or "offset" not in b or "offset" not in e:
+        raise ExtractionError("no source range for template argument lookup")
+    if f not in _SRC_CACHE:
+        _SRC_CACHE[f] = open(f, "rb").read()
+    return _SRC_CACHE[f][b["offset"]:e["offset"] + e.get("tokLen", 1)].decode("latin-1")
+
+
+def _holds_alternative(em, node, recv, args):
+    src = _node_source(em, node)
+    m = _re.search(r"holds_alternative\s*<\s*([^>]+?)\s*>", src)
+    if not m:
+        raise ExtractionError("holds_alternative without explicit template argument: %r" % src[:80])
+    alt = m.group(1).split("::")[-1]
+    kinds = {"SpanContext": 0, "Context": 1}
+    if alt not in kinds:
+        raise ExtractionError("holds_alternative<%s> not modelled" % alt)
+    em.report["nostd::holds_alternative<T>(options.parent) -> tag test (T read from the source text)"] += 1
+    return "(%s.parent_kind == %d)" % (em.pexpr_post(_strip_member(em, args[0])), kinds[alt])
+
+
+def _strip_member(em, a):
+    s = em._strip_all(a)
+    if s.get("kind") == "MemberExpr" and s.get("name") == "parent":
+        return s["inner"][0]
+    raise ExtractionError("variant access on something other than options.parent")
+
+
+def _opt_parent_get(em, node, recv, args):
+    t = em.ctype(node["type"])
+    if t.is_ref:
+        t = t.pointee()
+    base = em.pexpr_post(_strip_member(em, args[0]))
+    if t.base == "SpanContext":
+        return "xc_opt_parent_sc(&(%s))" % base
+    if t.base == "xc_ctx":
+        return "xc_opt_parent_ctx(&(%s))" % base
+    raise ExtractionError("nostd::get<%s>(options.parent) not modelled" % t.base)
+
+
+def tracer_boundary(cfg):
+    E = lambda name: (lambda em, node, recv, args: "%s(%s)" % (name, ", ".join(em.expr(a) for a in args)))
+    cfg.opaque_records["trace::StartSpanOptions"] = "xc_StartSpanOptions"
+    cfg.opaque_records["StartSpanOptions"] = "xc_StartSpanOptions"
+    cfg.type_map["context::Context"] = "xc_ctx"
+    cfg.ext_q["TracerConfig::IsEnabled"] = lambda em, node, recv, args: "g_tracer_enabled"
+    cfg.ext_q["NoopTracer::StartSpan"] = lambda em, node, recv, args: "xc_noop_tracer_StartSpan()"
+    cfg.ext_q["Tracer::GetCurrentSpan"] = lambda em, node, recv, args: "xc_GetCurrentSpan()"
+    cfg.ext_q["trace::Tracer::GetCurrentSpan"] = lambda em, node, recv, args: "xc_GetCurrentSpan()"
+    cfg.ext_q["Span::GetContext"] = lambda em, node, recv, args: "xc_span_GetContext(%s)" % em.expr(recv["node"] if recv.get("xc_is_ptr") else recv)
+    cfg.ext_q["trace::IsRootSpan"] = lambda em, node, recv, args: "xc_IsRootSpan(%s)" % em.addr_of(args[0])
+    cfg.ext_q["Tracer::GetIdGenerator"] = lambda em, node, recv, args: "g_idgen"
+    cfg.ext_q["IdGenerator::GenerateSpanId"] = lambda em, node, recv, args: "xc_GenerateSpanId()"
+    cfg.ext_q["IdGenerator::GenerateTraceId"] = lambda em, node, recv, args: "xc_GenerateTraceId()"
+    cfg.ext_q["IdGenerator::IsRandom"] = lambda em, node, recv, args: "g_idgen_is_random"
+    cfg.ext_q["TracerContext::GetSampler"] = lambda em, node, recv, args: "g_sampler"
+    cfg.ext_q["Sampler::ShouldSample"] = lambda em, node, recv, args: "xc_sampler_ShouldSample(%s)" % ", ".join(
+        em.call_args(em.ix.by_id.get(node["inner"][0].get("referencedMemberDecl")) or {}, args)[:2])
+    cfg.ext_q["shared_ptr<trace::TraceState>::operator bool"] = lambda em, node, recv, args: "(%s.id != 0)" % em.pexpr_post(recv)
+    cfg.ext["holds_alternative"] = _holds_alternative
+    cfg.ext["get"] = _opt_parent_get
+    cfg.opaque_records["sdk::trace::IdGenerator"] = "xc_opaque"
+    cfg.opaque_records["sdk::trace::Sampler"] = "xc_opaque"
